@@ -499,7 +499,7 @@ def config_specs(kinds=('wms', 'wms', 'tile'), cascade=None, direct=None):
         if scale == 'coarse':
             pool = [s for s in pool if s in GLOBAL_BBOX]
         g1_srs = draw(st.sampled_from(pool))
-        with_cascade = cascade if cascade is not None else draw(st.integers(0, 2)) == 0
+        with_cascade = cascade if cascade is not None else draw(st.booleans())
         g2_srs = draw(st.sampled_from(pool)) if with_cascade else None
         if scale == 'fine':
             point = [draw(st.floats(HOME[0] + 1.5, HOME[2] - 1.5)), draw(st.floats(HOME[1] + 1.5, HOME[3] - 2.0))]
